@@ -24,6 +24,7 @@ NE = len(ENTS)
 ND = 1 + sum(1 for e in ENTS if e[1])
 FILES = [e[0] for e in ENTS if not e[1]]
 vfslib.install()
+hc.install_set_model()      # C17: iteration order of sets built inside cminx is chosen by the harness (hash-seed model)
 hc.quiet_logging()
 
 
@@ -213,7 +214,9 @@ def check(present: List[bool], excl: List[bool], rev: List[bool], excl_root: boo
         s2 = _settings(out, recursive, auto_ex, has_prefix, sep2, ext_t, ext_m)
         if cwd2:
             s2.output.directory = pp.normpath(pp.join("/w/cwd", out))      # same absolute output directory
+        hc.VSet.rev = True          # ... and under the other set-iteration order (hash seed)
         _run("." if cwd2 else BASE, s2)
+        hc.VSet.rev = False
         w2 = sorted(VFS.writes)
         return hc.report(w1 == w2, **args)
     if MODE == "hist":
